@@ -119,6 +119,14 @@ def main():
                     if extra or n == "_unparsed":
                         ctx.broken.append({"what": "unexpected assumptions", "theorem": n, "detail": txt})
     ctx.model_built = (rc == 0)
+    coqchk_txt = None
+    if rc == 0 and a.tier == "thorough":
+        # independent re-check of the compiled property file and everything it depends on
+        rc3, out3 = sh("timeout 2400 coqchk -o -silent -Q %s SynRBL SynRBL.Props.%s 2>&1" % (COQ, pid), cwd=VERIF, timeout=2500)
+        m3 = re.search(r"CONTEXT SUMMARY.*", out3, flags=re.S)
+        coqchk_txt = " ".join((m3.group(0) if m3 else out3[-800:]).split())
+        if rc3 != 0 or "* Axioms: <none>" not in coqchk_txt:
+            ctx.broken.append({"what": "coqchk did not accept the property file without axioms", "detail": out3[-1500:]})
 
     # ---- 2. engine
     try:
@@ -176,6 +184,8 @@ def main():
           "translator harness/gen_data.py (runtime objects of /repo -> Gen/*.v), correspondence harness harness/props/%s.py" % pid.lower()]
     for n, txt in sorted(assumptions_txt.items()):
         tb.append("Print Assumptions %s: %s" % (n, " ".join(txt.split())))
+    if coqchk_txt:
+        tb.append("coqchk -o (independent checker) on Props/%s.vo and its dependencies: %s" % (pid, coqchk_txt))
     tb += getattr(mod, "TRUSTED", [])
     ev = {
         "property_id": pid, "tier": a.tier, "seed": seed, "level": "proof",
